@@ -343,13 +343,12 @@ package server
 // can no longer be imported into the neighbour's VRF replaces one that could (and was advertised): the neighbour is
 // sent the withdrawal, the function does not just drop the change (vrf is in scope at the returns of the VRF block)
 //@ func (*BgpServer).prePolicyFilterpath
-//@   claims at-return
+//@   claims at-return at-call
 //@   at-return requires ok && old != nil && table.CanImportToVrf(vrf, old) ==> ret0 != nil
 // from C17 "re-advertised to that VRF's attached peers as a plain route": the withdrawals the filter chain derives from
-// the replaced route are plain too - the replaced route handed to the chain for a VRF neighbour is never the global
-// VPN route itself (that one, withdrawn, would go out in the VPN family with the RD-qualified NLRI)
-//@   claims at-call
-//@   at-call ^filterpath(peer, path, old) requires peerVrf != "" && arg2 != nil ==> arg2 != old0
+// the replaced route are plain too - the replaced route handed to the chain for a VRF neighbour is its plain form
+// (the global VPN route itself, withdrawn, would go out in the VPN family with the RD-qualified NLRI)
+//@   at-call ^filterpath(peer, path, old) requires peerVrf != "" && arg1 != nil && arg2 != nil ==> arg2 == old0.ToLocal()
 
 // =============================================================================================
 // C12 - graceful restart: the per-call parts (DESIGN.md 4 C12; every "exactly when <timer/event order>" clause
